@@ -75,7 +75,9 @@ class ProbMonitor:
                         locks=lk.tolist(), P=out.tolist())
             return
         err = float(np.max(np.abs(got - ref)))
-        if err > 1e-9:
+        # 1e-9 for 0/1 weights, 1e-6 for real weights (round-off of the
+        # program's signed permanent formula, see C02)
+        if err > (1e-9 if sub.max(initial=0) <= 1 else 1e-6):
             rig.violate("P-differs-from-permanent-ratio",
                         f"{where}: max |P - W_ij perm(W\\ij)/perm(W)| = "
                         f"{err:.3g}",
